@@ -313,7 +313,12 @@ def _estimate(spec, order_seed):
     table = r.get_estimated_parameters(only_robust=False)
     corr = r.get_correlation_results()
     fixed = loglike.dict_of_elementary_expression(T.FIXED_BETA)
-    return dict(names=list(the.free_beta_names), beta=dict(r.get_beta_values()),
+    # selections of estimates requested by name, in orders that are not the sorted one
+    all_names = list(the.free_beta_names)
+    rs = np.random.RandomState(spec['data_seed'] + 7)
+    selections = [all_names[::-1], [all_names[i] for i in rs.permutation(len(all_names))][:max(1, len(all_names) - 1)]]
+    selected = [[sel, {k_: float(v_) for k_, v_ in r.get_beta_values(my_betas=sel).items()}] for sel in selections]
+    return dict(names=list(the.free_beta_names), beta=dict(r.get_beta_values()), selected=selected,
                 table={n: {c: float(table.loc[n, c]) for c in table.columns if c != 'Active bound'} for n in table.index},
                 corr={idx: {c: float(corr.loc[idx, c]) for c in corr.columns} for idx in corr.index},
                 converged=bool(r.algorithm_has_converged()), loglike=float(r.data.logLike),
@@ -363,6 +368,13 @@ def judge_estimation(spec) -> Outcome:
     if not (A['converged'] and B['converged']):
         out.skipped = 'optimiser did not report convergence'
         return out
+    for tag_, obs_ in (('original', A), ('renamed', B)):
+        for sel, got in obs_['selected']:
+            want = {n_: obs_['beta'][n_] for n_ in sel}
+            if got != want:
+                out.fail('estimation:get_beta_values_selection', f'{tag_} model: get_beta_values(my_betas={sel}) = {got}, the estimates '
+                                                                 f'are {want}' + where)
+                return out
     for pos, n in enumerate(names):
         a, b, r_ = A['beta'][n], B['beta'][m[n]], xs[pos]
         if not (abs(a - r_) <= 2e-4 * (1 + abs(r_))):
